@@ -25,7 +25,7 @@ PANIC_CALL_RX = [
     (r"^std::time::(Instant|SystemTime)::(add|sub)$", "time-arith"),
     (r"^std::io::BufRead::consume$", "bufread-consume"),                          # <&[u8]>::consume slices out of range when amt > what fill_buf returned
     (r"^std::iter::(Iterator|Sum|Product)::(sum|product)$", "iter-arith"),        # integer accumulation inherits overflow checks
-    (r"^std::thread::", "thread"),
+    (r"^std::thread::(?!available_parallelism$)", "thread"),       # available_parallelism() returns an io::Result and spawns nothing
 ]
 ALLOC_CALL_RX = [
     (r"^std::vec::from_elem$", 1),                                  # vec![x; n]
